@@ -96,7 +96,9 @@ fn log_roots(case: &Value, out: &mut Out, ty: &str, refine: bool, a: &[(f64, f64
     let fam = if lag { "lagcycle" } else if zp { "zeropolish" } else if ca { "cardanoaxis" } else { "" };
     e["fam"] = json!(fam);
     extra(&mut e);
-    if !fam.is_empty() { for chk in ["shape", "be"] { let mut s = e.clone(); s["chk"] = json!(chk); out.ev(s); } e["chk"] = json!("match"); }
+    // the recorded D16 instances (explicit degree-8 polynomials, field pid8 = coefficient list) are also reported clause by clause
+    if let Some(pid) = case.get("pid8") { e["pid8"] = pid.clone(); }
+    if !fam.is_empty() || case.get("pid8").is_some() { for chk in ["shape", "be"] { let mut s = e.clone(); s["chk"] = json!(chk); out.ev(s); } e["chk"] = json!("match"); }
     out.ev(e);
 }
 
@@ -170,6 +172,14 @@ pub fn gen(tier: &str, seed: u64, out: &mut Out) {
     push(out, json!({"ty": "f64", "refine": true, "cls": "d4", "sep": false, "a": hexvec(&[0.0, 0.0, -3.5]), "tr": hexvec(&[0.0, 0.0]), "tri": hexvec(&[0.0, 0.0])}));
     let c8 = -1.5549740084041903f64;
     push(out, json!({"ty": "f64", "refine": true, "cls": "d8", "sep": false, "a": hexvec(&[0.0, c8, -2.0 * c8, c8])}));
+    // D16 (recorded by input, not by family): degree-8 (anti-)palindromic polynomials (x^n +- 1)(x +- 1)^2(x -+ 1) on which roots(false)
+    // returns a value near 0; both settings, both element types; the refined runs stay strict
+    for a in [[-1i64, -2, -1, 0, 0, 0, 1, 2, 1], [1, 2, 1, 0, 0, 0, -1, -2, -1], [-3, 3, 3, -3, 0, -3, 3, 3, -3], [3, -3, -3, 3, 0, -3, 3, 3, -3], [2, 2, -2, -2, 0, 2, 2, -2, -2]] {
+        let pid = a.iter().map(|x| x.to_string()).collect::<Vec<String>>().join(",");
+        let af: Vec<f64> = a.iter().map(|x| *x as f64).collect();
+        for ty in ["f64", "cx"] { for refine in [false, true] {
+            push(out, json!({"ty": ty, "refine": refine, "cls": "d16", "sep": false, "pid8": pid, "a": hexvec(&af), "ai": hexvec(&[0.0; 9])})); } }
+    }
     // the documented representative of the known finding: (x - 1)^6 - 1e-6 (roots 1 + 0.1*exp(2 pi i k/6)), with polishing
     for refine in [false, true] { push(out, json!({"ty": "f64", "refine": refine, "cls": "ring", "sep": false, "a": hexvec(&[0.999999, -6.0, 15.0, -20.0, 15.0, -6.0, 1.0])})); }
     // degree 0 and the empty polynomial: rejected
@@ -242,6 +252,7 @@ pub fn gen(tier: &str, seed: u64, out: &mut Out) {
         if c != 0.0 { emit(out, &mut push, &mut rng, "zero_multiple", false, (c, 0.0), &roots, false); }
     }
     gen_special_low(quick, &mut rng, out, &mut push);
+    gen_small_integer(quick, seed, out, &mut push);
     gen_sequences(quick, &mut rng, out, &mut push);
     let _ = DD::ZERO;
 }
@@ -367,4 +378,118 @@ fn gen_sequences(quick: bool, rng: &mut StdRng, out: &mut Out, push: &mut dyn Fn
         if cx { c["ai"] = hexvec(&a0.iter().map(|c| c.1).collect::<Vec<f64>>()); }
         push(out, c);
     } } } }
+}
+
+// ------------------------------------------------------------------ small-integer polynomials (exact cycles / symmetric configurations of the iteration)
+/// Independent reference roots of a real- or Gaussian-integer-coefficient polynomial: Aberth-Ehrlich iteration in f64, polished by Newton steps
+/// with Horner in complex double-double.  Returns None unless every root is verified (|p(z)| tiny in double-double) and the roots are simple.
+fn reference_roots(a: &[C]) -> Option<Vec<C>> {
+    let n = a.len() - 1; if n == 0 { return None; }
+    let cm = |x: C, y: C| (x.0 * y.0 - x.1 * y.1, x.0 * y.1 + x.1 * y.0);
+    let cd = |x: C, y: C| { let d = y.0 * y.0 + y.1 * y.1; ((x.0 * y.0 + x.1 * y.1) / d, (x.1 * y.0 - x.0 * y.1) / d) };
+    let an = a[n]; let amax = a.iter().map(|c| c.0.hypot(c.1)).fold(0.0, f64::max);
+    let rad = 1.0 + a[..n].iter().map(|c| c.0.hypot(c.1)).fold(0.0, f64::max) / an.0.hypot(an.1);
+    let mut z: Vec<C> = (0..n).map(|k| { let t = 2.0 * std::f64::consts::PI * (k as f64 + 0.35) / n as f64 + 0.4; (0.6 * rad * t.cos(), 0.6 * rad * t.sin()) }).collect();
+    for _ in 0..400 {
+        let mut moved = 0.0f64;
+        for i in 0..n {
+            let (mut p, mut d) = ((0.0, 0.0), (0.0, 0.0));
+            for c in a.iter().rev() { d = { let t = cm(d, z[i]); (t.0 + p.0, t.1 + p.1) }; p = { let t = cm(p, z[i]); (t.0 + c.0, t.1 + c.1) }; }
+            if p == (0.0, 0.0) { continue; }
+            if d == (0.0, 0.0) { z[i] = (z[i].0 + 1e-3 * rad, z[i].1 + 1e-3 * rad); moved = 1.0; continue; }
+            let w = cd(p, d);
+            let mut sum = (0.0, 0.0);
+            for j in 0..n { if j != i { let q = cd((1.0, 0.0), (z[i].0 - z[j].0, z[i].1 - z[j].1)); sum = (sum.0 + q.0, sum.1 + q.1); } }
+            let den = { let t = cm(w, sum); (1.0 - t.0, -t.1) };
+            let dz = cd(w, den);
+            if !dz.0.is_finite() || !dz.1.is_finite() { return None; }
+            z[i] = (z[i].0 - dz.0, z[i].1 - dz.1); moved = moved.max(dz.0.hypot(dz.1));
+        }
+        if moved < 1e-15 * rad { break; }
+    }
+    // Newton polishing in double-double and verification
+    for zi in z.iter_mut() {
+        for _ in 0..3 {
+            let zz = CDD::from(zi.0, zi.1); let (mut p, mut d) = (CDD::ZERO, CDD::ZERO);
+            for c in a.iter().rev() { d = d.mul(zz).add(p); p = p.mul(zz).add(CDD::from(c.0, c.1)); }
+            if d.abs() == 0.0 { return None; }
+            let w = p.div(d); *zi = (zi.0 - w.re.to_f64(), zi.1 - w.im.to_f64());
+        }
+        let m = zi.0.hypot(zi.1).max(1.0).powi(n as i32);
+        if !(horner_abs(a, *zi) / (amax * m) <= 1e-14) { return None; }
+    }
+    let scale = z.iter().map(|r| r.0.hypot(r.1)).fold(1.0, f64::max);
+    for i in 0..n { for j in 0..i { if (z[i].0 - z[j].0).hypot(z[i].1 - z[j].1) < 1e-2 * scale { return None; } } }
+    Some(z)
+}
+fn pmul_i(a: &[i64], b: &[i64]) -> Vec<i64> { let mut r = vec![0i64; a.len() + b.len() - 1]; for (i, x) in a.iter().enumerate() { for (j, y) in b.iter().enumerate() { r[i + j] += x * y; } } r }
+/// all coefficient lists of the given length over -3..3 with non-zero last entry, in a fixed order; `idx` selects one
+fn nth_small(len: usize, mut idx: u64) -> Vec<i64> {
+    let mut v = vec![0i64; len];
+    for k in 0..len - 1 { v[k] = (idx % 7) as i64 - 3; idx /= 7; }
+    v[len - 1] = [1i64, -1, 2, -2, 3, -3][(idx % 6) as usize]; v
+}
+fn count_small(len: usize) -> u64 { 6 * 7u64.pow(len as u32 - 1) }
+
+fn gen_small_integer(quick: bool, seed: u64, out: &mut Out, push: &mut dyn FnMut(&mut Out, Value)) {
+    let mut rng = rng(seed, 110);
+    let rng = &mut rng;
+    // one integer polynomial: both refine settings; Polynomial<f64> and (cxalso) Polynomial<Cmplx>; reference roots decide `sep`
+    let mut emit = |out: &mut Out, cls: &str, a: &[i64], ai: Option<&[i64]>, cxalso: bool| {
+        if a.len() < 2 || (a[a.len() - 1] == 0 && ai.map(|v| v[a.len() - 1] == 0).unwrap_or(true)) { return; }
+        let ac: Vec<C> = a.iter().enumerate().map(|(k, x)| (*x as f64, ai.map(|v| v[k] as f64).unwrap_or(0.0))).collect();
+        let refr = reference_roots(&ac);
+        let sep = refr.as_ref().map(|r| condition(&ac, r) <= 1e3).unwrap_or(false);
+        let tys: Vec<bool> = if ai.is_some() { vec![true] } else if cxalso { vec![false, true] } else { vec![false] };
+        for cx in tys { for refine in [false, true] {
+            let mut c = json!({"ty": if cx { "cx" } else { "f64" }, "refine": refine, "cls": cls, "sep": sep, "a": hexvec(&ac.iter().map(|c| c.0).collect::<Vec<f64>>())});
+            if cx { c["ai"] = hexvec(&ac.iter().map(|c| c.1).collect::<Vec<f64>>()); }
+            if let (true, Some(r)) = (sep, refr.as_ref()) { c["tr"] = hexvec(&r.iter().map(|c| c.0).collect::<Vec<f64>>()); c["tri"] = hexvec(&r.iter().map(|c| c.1).collect::<Vec<f64>>()); }
+            push(out, c);
+        } }
+    };
+    let small = |rng: &mut StdRng, len: usize| -> Vec<i64> { let n = count_small(len); nth_small(len, rng.gen_range(0..n)) };
+    let nz = |rng: &mut StdRng| [1i64, -1, 2, -2, 3, -3][rng.gen_range(0..6)];
+    // (a1) (a*x^3 + b) * (quadratic or cubic), (a2) (a*x^k + b) * q(x) for k = 2..5, deg q = 1..3 (total degree 5..6 mostly)
+    let n1 = if quick { 350 } else { 6000 };
+    for i in 0..n1 {
+        let k = if i % 2 == 0 { 3 } else { [2usize, 4, 5, 3][(i / 2) % 4] };
+        let mut f = vec![0i64; k + 1]; f[0] = nz(rng); f[k] = nz(rng);
+        // total degree 5..6 (k = 2: degree 5)
+        let dq = match k { 3 => 2 + (i / 2) % 2, 2 => 3, 4 => 1 + (i / 8) % 2, _ => 1 };
+        let q = small(rng, dq + 1);
+        emit(out, "axkb", &pmul_i(&f, &q), None, i % 3 == 0);
+    }
+    // (a3) palindromic and anti-palindromic polynomials, degree 4..6 (degree 8 is left out: see the report on (x^n +- 1)(x +- 1)^2(x -+ 1))
+    for i in 0..(if quick { 120 } else { 2500 }) {
+        let n = 4 + i % 3; let half = small(rng, n / 2 + 1);
+        let anti = (i / 3) % 2 == 1;
+        let mut a = vec![0i64; n + 1];
+        for j in 0..=n / 2 { let c = half[n / 2 - j]; a[n - j] = c; a[j] = if anti { -c } else { c }; }
+        if anti && n % 2 == 0 { a[n / 2] = 0; }
+        emit(out, "palin", &a, None, i % 3 == 0);
+    }
+    // (a4) polynomials in x^2 or x^3 times a linear factor
+    for i in 0..(if quick { 120 } else { 2500 }) {
+        // (c0 + c1 x^2 + c2 x^4)(d0 + d1 x): degree 5;  c0 + c1 x^2 + c2 x^4 + c3 x^6 and c0 + c1 x^3 + c2 x^6: degree 6
+        let (m, terms, with_lin) = [(2usize, 2usize, true), (2, 3, false), (3, 2, false)][i % 3];
+        let c = small(rng, terms + 1); let mut g = vec![0i64; m * terms + 1]; for (j, x) in c.iter().enumerate() { g[m * j] = *x; }
+        let lin = if with_lin { vec![rng.gen_range(-3..=3i64), nz(rng)] } else { vec![1i64] };
+        emit(out, "xpow", &pmul_i(&g, &lin), None, i % 3 == 0);
+    }
+    // Gaussian-integer variants of (a1): (a*x^3 + b) * q with b, q Gaussian integers (Polynomial<Cmplx> only)
+    for _ in 0..(if quick { 60 } else { 1500 }) {
+        let q = small(rng, 3); let qi = [rng.gen_range(-2..=2i64), rng.gen_range(-2..=2i64), 0];
+        let (a3, b, bi) = (nz(rng), nz(rng), rng.gen_range(-3..=3i64));
+        // (a3 x^3 + (b + i bi)) * (q + i qi)
+        let mut re = vec![0i64; 6]; let mut im = vec![0i64; 6];
+        for j in 0..3 { re[j] += b * q[j] - bi * qi[j]; im[j] += b * qi[j] + bi * q[j]; re[j + 3] += a3 * q[j]; im[j + 3] += a3 * qi[j]; }
+        emit(out, "axkb", &re, Some(&im), true);
+    }
+    // (b) all quintics with coefficients in -3..3 (thorough), a seeded sample of them (quick); a sample of the sextics
+    let n5 = count_small(6);
+    if quick { for _ in 0..1500 { let a = nth_small(6, rng.gen_range(0..n5)); emit(out, "enum5", &a, None, false); } }
+    else { for idx in 0..n5 { let a = nth_small(6, idx); emit(out, "enum5", &a, None, false); } }
+    let n6 = count_small(7);
+    for _ in 0..(if quick { 500 } else { 40000 }) { let a = nth_small(7, rng.gen_range(0..n6)); emit(out, "enum6", &a, None, false); }
 }
